@@ -116,3 +116,69 @@ contract(ASS + "._find_and_merge_potentially_swapped_constraints", params=FM_PAR
                          "MC._dominant_constraint[%s]" % G2, "MC._disable_or[%s]" % G2, "MC._redundant_or_enabled[%s]" % G2, "alloc", "Statement._comments"],
     props=["C02", "C12", "C03"], note="search + merge: the constraint returned stands for the property of the leading candidate and is a candidate of that property or a new statement")
 
+
+# =====================================================================================================================================
+# empty-shape removal (C05: every reference resolves after shapes were removed; C02: nothing else is lost): the two filters and the detection
+# =====================================================================================================================================
+from contracts.shexing import Shape, Kind
+OS = "original_statements"
+NAMES = "shape_names_to_remove"
+contract(ASS + "._statements_without_shapes_to_remove", params={OS: List(Statement), NAMES: Set(Kind)}, returns=List(Statement),
+    requires=["forall(Int, lambda j: implies(%s, has_class(at(%s, j), 'Statement')))" % (BOUND("j", OS), OS)],
+    ensures=[# only statements of the input, none of them pointing to a removed shape ...
+             "forall(Int, lambda q: implies(0 <= q and q < len(result), not (some(at(result, q)._st_type) in %s) and exists(Int, lambda j: %s and at(%s, j) == at(result, q))))" % (NAMES, BOUND("j", OS), OS),
+             # ... and every other statement is kept
+             "forall(Int, lambda j: implies(%s and not (some(at(%s, j)._st_type) in %s), exists(Int, lambda q: 0 <= q and q < len(result) and at(result, q) == at(%s, j))))" % (BOUND("j", OS), OS, NAMES, OS),
+             "len(result) <= len(%s)" % OS],
+    raises=[], modifies=[],
+    ghost={"__locals__": {"new_statements": List(Statement)}},
+    loops={0: {"invariant": [
+        "forall(Int, lambda q: implies(0 <= q and q < len(new_statements), not (some(at(new_statements, q)._st_type) in %s) and exists(Int, lambda j: 0 <= j and j < _i0 and at(%s, j) == at(new_statements, q))))" % (NAMES, OS),
+        "forall(Int, lambda j: implies(0 <= j and j < _i0 and not (some(at(%s, j)._st_type) in %s), exists(Int, lambda q: 0 <= q and q < len(new_statements) and at(new_statements, q) == at(%s, j))))" % (OS, NAMES, OS),
+        "len(new_statements) <= _i0", "list_eq(_seq0, %s)" % OS]}},
+    props=["C05", "C02", "C12"],
+    note="statements that point to a removed shape are dropped, every other statement is kept: no dangling reference survives the filter, nothing else is lost")
+
+CSX = "shexer.core.shexing.class_shexer:ClassShexer"
+ClassShexerT = schema("ClassShexer", [CSX], {"_shapes_list": List(Shape), "_remove_empty_shapes": Bool}, register=False)
+SHL_ = "self._shapes_list"
+contract(CSX + "._detect_shapes_to_remove", params={}, returns=Set(Kind), self_type=ClassShexerT,
+    ensures=["forall(Kind, lambda k: (k in result) == exists(Int, lambda j: %s and at(%s, j)._name == k and len(at(%s, j)._statements) == 0))" % (BOUND("j", SHL_), SHL_, SHL_)],
+    raises=[], modifies=[], ghost={"__locals__": {"result": Set(Kind)}},
+    loops={0: {"invariant": ["forall(Kind, lambda k: (k in result) == exists(Int, lambda j: 0 <= j and j < _i0 and at(%s, j)._name == k and len(at(%s, j)._statements) == 0))" % (SHL_, SHL_),
+                             "list_eq(_seq0, %s)" % SHL_]}},
+    props=["C05", "C02"], note="the shapes to remove are exactly the names of the shapes without any statement")
+contract(CSX + "._remove_shapes_without_statements", params={NAMES: Set(Kind)}, self_type=ClassShexerT,
+    ensures=["forall(Int, lambda q: implies(%s, not (at(%s, q)._name in %s) and exists(Int, lambda j: 0 <= j and j < len(old(%s)) and at(old(%s), j) == at(%s, q))))" % (BOUND("q", SHL_), SHL_, NAMES, SHL_, SHL_, SHL_),
+             "forall(Int, lambda j: implies(0 <= j and j < len(old(%s)) and not (at(old(%s), j)._name in %s), exists(Int, lambda q: %s and at(%s, q) == at(old(%s), j))))" % (SHL_, SHL_, NAMES, BOUND("q", SHL_), SHL_, SHL_)],
+    raises=[], modifies=["ClassShexer._shapes_list[self]"], ghost={"__locals__": {"new_shape_list": List(Shape)}},
+    loops={0: {"invariant": [
+        "forall(Int, lambda q: implies(0 <= q and q < len(new_shape_list), not (at(new_shape_list, q)._name in %s) and exists(Int, lambda j: 0 <= j and j < _i0 and at(%s, j) == at(new_shape_list, q))))" % (NAMES, SHL_),
+        "forall(Int, lambda j: implies(0 <= j and j < _i0 and not (at(%s, j)._name in %s), exists(Int, lambda q: 0 <= q and q < len(new_shape_list) and at(new_shape_list, q) == at(%s, j))))" % (SHL_, NAMES, SHL_),
+        "list_eq(_seq0, %s)" % SHL_, "%s == old(%s)" % (SHL_, SHL_)]}},
+    props=["C05", "C02"], note="exactly the shapes whose name is listed are dropped; every other shape is kept")
+
+# ---- termination of empty-shape removal: every round removes at least one shape ---------------------------------------------------------
+_rm = CONTRACTS[CSX + "._remove_shapes_without_statements"]
+ANY_LISTED = "exists(Int, lambda j: 0 <= j and j < {upto} and at({lst}, j)._name in %s)" % NAMES
+_rm.ensures += ["len(%s) <= len(old(%s))" % (SHL_, SHL_),
+                "implies(%s, len(%s) < len(old(%s)))" % (ANY_LISTED.format(upto="len(old(%s))" % SHL_, lst="old(%s)" % SHL_), SHL_, SHL_)]
+_rm.loops[0]["invariant"] += ["len(new_shape_list) <= _i0",
+                              "implies(%s, len(new_shape_list) < _i0)" % ANY_LISTED.format(upto="_i0", lst=SHL_)]
+contract(CSX + "._remove_statements_to_gone_shapes", params={NAMES: Set(Kind)}, self_type=ClassShexerT,
+    ensures=[], raises=[], modifies=["Shape._statements"], assume_only=True, verify=False, props=["C05", "C02"],
+    note="ASSUMED here (dispatch into the strategy objects, Shape property setters with comprehensions): only the statement lists of shapes are rewritten; "
+         "the filter it applies is _statements_without_shapes_to_remove (verified above); exercised by bounded/schemas.py and bounded/pipeline.py")
+DETECTED = "forall(Kind, lambda k: (k in {s}) == exists(Int, lambda j: %s and at(%s, j)._name == k and len(at(%s, j)._statements) == 0))" % (BOUND("j", SHL_), SHL_, SHL_)
+contract(CSX + "._iteration_remove_empty_shapes", params={NAMES: Set(Kind)}, self_type=ClassShexerT,
+    ensures=["len(%s) <= len(old(%s))" % (SHL_, SHL_),
+             "implies(%s, len(%s) < len(old(%s)))" % (ANY_LISTED.format(upto="len(old(%s))" % SHL_, lst="old(%s)" % SHL_), SHL_, SHL_)],
+    raises=[], modifies=["ClassShexer._shapes_list[self]", "Shape._statements"], props=["C05", "C02", "C04"])
+contract(CSX + "._clean_empty_shapes", params={}, self_type=ClassShexerT,
+    ensures=["implies(self._remove_empty_shapes, forall(Int, lambda j: implies(%s, len(at(%s, j)._statements) != 0)))" % (BOUND("j", SHL_), SHL_),
+             "implies(not self._remove_empty_shapes, %s == old(%s))" % (SHL_, SHL_)],
+    raises=[], modifies=["ClassShexer._shapes_list[self]", "Shape._statements"],
+    ghost={"__locals__": {"shapes_to_remove": Set(Kind)}},
+    loops={0: {"invariant": [DETECTED.format(s="shapes_to_remove"), "self._remove_empty_shapes"], "decreases": "len(%s)" % SHL_}},
+    props=["C05", "C02", "C04"],
+    note="empty-shape removal TERMINATES (every round removes at least one shape: decreases len(shapes)) and ends with no shape without statements")
